@@ -40,7 +40,9 @@ def arr(name, *dims, inp=True, labels=(), dtype=None):
 
 
 def scalar(name, lo=None, hi=None, lo_open=True, hi_open=True, labels=()):
-    extra = ("range", lo, hi, lo_open, hi_open) if lo is not None else None
+    extra = None
+    if lo is not None or hi is not None:
+        extra = ("range", float("-inf") if lo is None else lo, float("inf") if hi is None else hi, lo_open, hi_open)
     return V("float", sym(name), shape=(), extra=extra, labels=frozenset(labels))
 
 
@@ -161,10 +163,15 @@ class Ctx:
 
     def call_method(self, I, st, objv, name, *args, **kwargs):
         m = objv.obj.cls.find_method(name)
-        if m is None:
-            raise AnchorError(f"method {objv.obj.cls.qual}.{name} not found")
-        if getattr(m.cls, "external", False):
-            raise AnchorError(f"method {name} of {objv.obj.cls.qual} is external")
+        if m is None or getattr(m.cls, "external", False):
+            if not I.api.is_known_method(name):
+                raise AnchorError(f"method {objv.obj.cls.qual}.{name} not found")
+
+            def thunk():
+                fv = I.getattr_obj(objv, name, st)
+                return I.call_value(fv, [pyval(a) for a in args], {k: pyval(v) for k, v in kwargs.items()}, st, None)
+
+            return self._run(I, st, thunk)
         return self._run(I, st, lambda: I.call_function(Closure(m, self_v=objv, cls=m.cls), [pyval(a) for a in args], {k: pyval(v) for k, v in kwargs.items()}, st))
 
     def call_func(self, I, st, qual, *args, **kwargs):
